@@ -56,7 +56,9 @@ def build_harness(packages=None):
     if not os.path.exists(lock):
         shutil.copy("/repo/Cargo.lock", lock)
     t0 = time.time()
-    cmd = ["cargo", "build", "--offline", "--workspace"]
+    cmd = ["cargo", "build", "--offline"]
+    for pkg in (packages or ["broker-drivers"]):
+        cmd += ["-p", pkg]
     env = dict(os.environ, CARGO_NET_OFFLINE="true", CARGO_TERM_COLOR="never")
     p = subprocess.run(cmd, cwd=HARNESS, env=env, stdout=subprocess.PIPE, stderr=subprocess.STDOUT, text=True)
     if p.returncode != 0:
